@@ -14,7 +14,7 @@ from openhtf.output.callbacks import json_factory as JF
 from openhtf.util import atomic_write as AW
 
 PROPERTY = 'C17'
-LEVEL = 'other'
+LEVEL = 'fault_enumeration'
 
 
 def FUNCTIONS():
